@@ -148,7 +148,19 @@ func shortHash(s string) string {
 }
 
 func typeKey(t types.Type) string {
-	return types.TypeString(t, nil)
+	return types.TypeString(unaliasDeep(t), nil)
+}
+
+// unaliasDeep resolves alias types (also behind one pointer), so that
+// golang.org/x/crypto/ed25519.PrivateKey and crypto/ed25519.PrivateKey are one dynamic type.
+func unaliasDeep(t types.Type) types.Type {
+	t = types.Unalias(t)
+	if p, ok := t.(*types.Pointer); ok {
+		if e := types.Unalias(p.Elem()); e != p.Elem() {
+			return types.NewPointer(e)
+		}
+	}
+	return t
 }
 
 func (w *World) TypeID(t types.Type) int {
